@@ -697,6 +697,30 @@ def check(run: Run) -> None:
                     if mt.group(1) not in quantities:
                         run.violate("D5", f"{m.name}:quantity-role:{mt.group(1)}", m, node,
                                     f":quantity_notation:`{mt.group(1)}` names no Quantity of the constants catalogue: the role resolver raises ValueError")
+    # D12: the page a :symbols: role links to documents the name. The resolver takes the first sub-module (sorted) that holds the exported OBJECT under that
+    # name - an imported name counts; the page of a sub-module documents the names it assigns
+    run.rule("D12", "every :symbols: role is linked to the page of a sub-module that defines (assigns) the name, not to one that merely imports it")
+    roles_used = set()
+    for m in documented:
+        for node in ast.walk(m.tree):
+            if isinstance(node, ast.Constant) and isinstance(node.value, str) and ":symbols:" in node.value:
+                roles_used.update(mt.group(1) for mt in SYMBOL_ROLE.finditer(node.value))
+    n12 = 0
+    for name in sorted(roles_used):
+        exported = senv.names.get(name)
+        if exported is None or exported.ident is None:
+            continue
+        n12 += 1
+        run.ob("D12", name)
+        for sub in sorted(sym_sub):
+            m_, names_ = sym_sub[sub]
+            if name in names_ and names_[name].ident == exported.ident:
+                if not exported.ident.startswith(f"{m_.name}:"):
+                    run.violate("D12", f"symbols:{sub}.{name}:linked-to-importing-module", m_, m_.tree,
+                                f":symbols:`{name}` is linked to symbols.{sub}.{name} (the first sub-module that holds the exported object), but symbols/{sub}.py only imports "
+                                f"the name from {exported.ident.split(':')[0]}: its page has no entry `{name}`, the cross-reference on every law page that uses the role points nowhere")
+                break
+    run.floor("D12", n12, 50, "symbol names used in :symbols: roles")
     run.notes["kept_statements"] = kept_statements
     run.sample({"documented_modules": len(documented), "kept_statements": kept_statements, "resolvable_symbols": len(resolvable), "quantities": len(quantities)})
     # positive fixture for D1
